@@ -17,7 +17,9 @@
 (*             s2 walks through its life cycle (create, activate, close)   *)
 (*             while s2 or a ghost caller probes every protected service;  *)
 (*   "ids"     (C32) two activated sessions create and delete              *)
-(*             subscriptions and items, including unknown and foreign ids. *)
+(*             subscriptions and items, including unknown and foreign ids; *)
+(*   "freshsub" / "freshitem" (C32) every successful create/delete history *)
+(*             of one session (the id-freshness patterns, exhaustively).   *)
 (***************************************************************************)
 EXTENDS ServerCore, Json
 
@@ -53,6 +55,12 @@ GInit ==
              /\ subs = << >> /\ items = << >> /\ nsub = 0 /\ nitem = 0
              /\ hist = << Op("CreateSession", "s1", "", 0, 0, 0), Op("Activate", "s1", "", 0, 0, 0),
                           Op("CreateSession", "s2", "", 0, 0, 0), Op("Activate", "s2", "", 0, 0, 0) >>
+        [] Focus \in {"freshsub", "freshitem"} ->
+             \* one session owning one subscription: every create/delete history of the bounded length
+             /\ sess = [s \in Sessions |-> "activated"]
+             /\ subs = (1 :> "s1") /\ items = << >> /\ nsub = 1 /\ nitem = 0
+             /\ hist = << Op("CreateSession", "s1", "", 0, 0, 0), Op("Activate", "s1", "", 0, 0, 0),
+                          Op("CreateSub", "s1", "", 0, 0, 0) >>
 
 SubRefs  == (1..nsub) \cup {Unknown}
 ItemRefs == (1..nitem) \cup {Unknown}
@@ -117,6 +125,10 @@ GNext ==
         [] Focus = "ids" ->
              /\ \E c \in Sessions : GCreateSub(c) \/ GDeleteSub(c) \/ GCreateItem(c) \/ GSetMode(c) \/ GDeleteItem(c)
              /\ probes' = probes
+        [] Focus = "freshsub" ->
+             /\ (GCreateSub("s1") \/ GDeleteSub("s1")) /\ last'.res = "ok" /\ probes' = probes
+        [] Focus = "freshitem" ->
+             /\ (GCreateItem("s1") \/ GDeleteItem("s1")) /\ last'.res = "ok" /\ probes' = probes
    /\ Counters
 
 GSpec == GInit /\ [][GNext]_gvars
@@ -124,7 +136,7 @@ GSpec == GInit /\ [][GNext]_gvars
 \* the contract invariants also hold along every generated script
 Terminal == CASE Focus = "access"  -> Len(hist) = MaxOps
               [] Focus = "session" -> probes = MaxProbes /\ last.svc \in Protected /\ last.c # "s1"
-              [] Focus = "ids"     -> Len(hist) = MaxOps
+              [] Focus \in {"ids", "freshsub", "freshitem"} -> Len(hist) = MaxOps
 Script == [focus |-> Focus, ops |-> hist,
            al |-> nodes[CHOOSE n \in NodeSet : TRUE].al, ual |-> nodes[CHOOSE n \in NodeSet : TRUE].ual]
 InvEmit == Terminal => PrintT("BEH " \o ToJson(Script))
